@@ -6,7 +6,7 @@ use std::{
 use clap::ArgGroup;
 use nickel_lang_core::{
     ast::{AstAlloc, InputFormat, Node},
-    error::{ParseError, Reporter as _},
+    error::Reporter as _,
     files::Files,
     parser::{self, ErrorTolerantParser, lexer::Lexer},
     serialize::yaml::Listify,
@@ -98,7 +98,7 @@ impl ConvertCommand {
             .map_err(|e| e.into()),
             InputFormat::Toml => {
                 nickel_lang_core::serialize::toml_deser::ast_from_str(&alloc, &data, file_id)
-                    .map_err(|e| ParseError::from_toml(e, file_id).into())
+                    .map_err(|e| e.into())
             }
             InputFormat::Text => {
                 // We convert text to Nickel by wrapping it in a string.
